@@ -112,6 +112,7 @@ GoVals(h) == ArgScalars \cup {Ref(x) : x \in DOMAIN h}
 CtorCands(h) ==
      (IF "NewList" \in OpsOn THEN {Op("NewList", 0, 0, 0, None, vs, Z) : vs \in {Z} \cup {<<v>> : v \in SV(h)}} ELSE {})
   \cup (IF "NewList2" \in OpsOn THEN {Op("NewList", 0, 0, 0, None, <<v, w>>, Z) : v \in ArgScalars, w \in SV(h)} ELSE {})
+  \cup (IF "NewListRR" \in OpsOn THEN {Op("NewList", 0, 0, 0, None, <<v, w>>, Z) : v \in RefVals(h), w \in RefVals(h)} ELSE {})
   \cup (IF "NewList3" \in OpsOn THEN {Op("NewList", 0, 0, 0, None, <<u, v, w>>, Z) : u \in ArgScalars, v \in ArgScalars, w \in ArgScalars} ELSE {})
   \cup (IF "NewListOf" \in OpsOn THEN {Op("NewListOf", 0, n, 0, v, Z, Z) : n \in 0..MaxLen, v \in SV(h)} ELSE {})
   \cup (IF "NewObject" \in OpsOn THEN {Op("NewObject", 0, 0, 0, None, vs, Z) : vs \in {Z} \cup {<<K(k), v>> : k \in 1..NKeys, v \in SV(h)}} ELSE {})
